@@ -13,6 +13,10 @@ EXT_ROOTS = {
     "ArgumentParser", "RawTextHelpFormatter", "HashStoreFactory", "datetime", "importlib", "sys",
     "time", "pg8000", "Pool", "FileHashStore_ext", "float", "map", "iter", "next", "id",
 }
+import string as _string
+EXT_CONSTS = {"string." + n: getattr(_string, n) for n in
+              ("whitespace", "digits", "hexdigits", "ascii_letters", "ascii_lowercase",
+               "ascii_uppercase", "punctuation", "octdigits", "printable")}
 REPO_CLASSES = {"FileHashStore", "Stream", "ObjectMetadata", "HashStoreParser", "HashStoreClient",
                 "MetacatDB"}
 SKIP_CALL_PREFIXES = ("logging.",)
@@ -52,6 +56,8 @@ class Interp:
         usable = (con is not None and use_contract and con.use_at_calls
                   and qualname not in self.force_inline
                   and eng.established.get(qualname, True) and con.spec is not None)
+        if usable and qualname in eng.funcs and _decorators(eng.funcs[qualname], qualname):
+            usable = False      # a memoised function is not its contract: run the body under the memo rule
         if usable:
             self.ctx.cover.add(("call", qualname))
             return con.call(self, args, kwargs)
@@ -96,15 +102,23 @@ class Interp:
         if _is_generator(node):
             return VObj("generator", node=node, args=list(args), kwargs=dict(kwargs),
                         qualname=qualname, closure=closure)
+        memo = _decorators(node, qualname)
         env = self.bind_args(node, list(args), dict(kwargs), closure)
         self.ctx.depth += 1
         self.ctx.callstack.append(qualname)
+        if memo:
+            # functools.lru_cache / cache: the memoised function equals the plain one exactly when
+            # its result depends on nothing but its arguments; every read of mutable state (file
+            # system, instance fields) inside it is an obligation that fails
+            self.ctx.__dict__.setdefault("memo_stack", []).append(qualname)
         try:
             self.exec_block(node.body, env)
             return NONE
         except ReturnSig as r:
             return r.value
         finally:
+            if memo:
+                self.ctx.memo_stack.pop()
             self.ctx.depth -= 1
             self.ctx.callstack.pop()
 
@@ -321,9 +335,24 @@ class Interp:
             return VExt(e.id)
         if e.id in EXT_ROOTS:
             return VExt(e.id)
+        if e.id in self.eng.module_consts:
+            # a module-level constant: its defining expression is evaluated at the use (sound for
+            # immutable values; a mutable module-level object would carry state between calls)
+            v = self.eval(self.eng.module_consts[e.id], Env())
+            if isinstance(v, (VDict,)) or (isinstance(v, VList) and v.kind != "frozenset"):
+                raise Undecided(f"mutable module-level object {e.id}")
+            return v
+        if e.id in self.eng.import_from:
+            full = self.eng.import_from[e.id]
+            if full in EXT_CONSTS:
+                return VStr(EXT_CONSTS[full])
+            if full.split(".")[0] in ("string", "unicodedata", "functools", "os", "shutil"):
+                return VExt(full)
         import builtins
-        if hasattr(builtins, e.id):
-            return VExt(e.id)       # a builtin the engine may or may not have a model for
+        if hasattr(builtins, e.id) or e.id in self.eng.imported:
+            # a builtin / imported module the engine may or may not have a model for (a call of an
+            # unmodelled one is undecided, never a NameError)
+            return VExt(e.id)
         raise PyRaise(mkexc("NameError"))
 
     def e_JoinedStr(self, e, env):
@@ -488,7 +517,16 @@ class Interp:
         kwargs = {}
         for k in e.keywords:
             if k.arg is None:
-                raise Undecided("**kwargs call")
+                d = self.eval(k.value, env)
+                # **mapping: a dict literal / dict built on this path with literal string keys
+                if not (isinstance(d, VDict) and not getattr(d, "symbolic", False)):
+                    raise Undecided("**kwargs call")
+                for g, kk, vv in d.entries:
+                    key = kk.concrete() if isinstance(kk, VStr) else None
+                    if key is None or not z3.is_true(z3.simplify(g)):
+                        raise Undecided("**kwargs call with a symbolic key")
+                    kwargs[key] = vv
+                continue
             kwargs[k.arg] = self.eval(k.value, env)
         return self.call(f, args, kwargs)
 
@@ -552,6 +590,25 @@ def _dotted(n):
 
 def _is_static(node):
     return any(isinstance(d, ast.Name) and d.id == "staticmethod" for d in node.decorator_list)
+
+
+PLAIN_DECORATORS = {"staticmethod", "classmethod", "property", "abstractmethod", "abc.abstractmethod",
+                    "contextmanager", "contextlib.contextmanager", "dataclass"}
+MEMO_DECORATORS = {"functools.lru_cache", "lru_cache", "functools.cache", "cache",
+                   "functools.cached_property", "cached_property"}
+
+
+def _decorators(node, qualname):
+    """True if the function is memoised; an unknown decorator may change the meaning of the
+    function arbitrarily, so the run is undecided rather than silently ignoring it."""
+    memo = False
+    for d in getattr(node, "decorator_list", []):
+        dn = _dotted(d.func if isinstance(d, ast.Call) else d)
+        if dn in MEMO_DECORATORS:
+            memo = True
+        elif dn not in PLAIN_DECORATORS:
+            raise Undecided(f"decorator {dn or ast.dump(d)[:40]} on {qualname} is not modelled")
+    return memo
 
 
 def _is_generator(node):
